@@ -107,6 +107,7 @@ func runSmall(c *core.Ctx) []core.Obligation {
 	smallDataWordNotDereferenced(c, b)
 	smallEmptyArrayFreshSlice(c, b)
 	smallWave23(c, b)
+	smallWave25(c, b)
 	smallStringOptionNull(c, b)
 	smallStringOptionMarshaler(c, b)
 	return b.out
@@ -5648,7 +5649,7 @@ func smallWave21(c *core.Ctx, b *ob) {
 	// invalid target is reported after the value was read (by Parse), like in encoding/json, so
 	// that the next Decode sees the next value.
 	{
-		props := []string{"C11"}
+		props := []string{"C11", "C05"}
 		key := "decoder:decode-always-consumes-a-value"
 		fn := c.Lookup("json.(*Decoder).Decode")
 		if fn == nil {
@@ -6241,7 +6242,7 @@ func smallWave23(c *core.Ctx, b *ob) {
 					continue
 				}
 				n++
-				ok := false
+				ok, okVal := false, false
 				for _, a := range trueAtoms(blk, 0) {
 					bo, isB := a.(*ssa.BinOp)
 					if !isB || bo.Op != token.EQL {
@@ -6249,17 +6250,26 @@ func smallWave23(c *core.Ctx, b *ob) {
 					}
 					for _, pair := range [][2]ssa.Value{{bo.X, bo.Y}, {bo.Y, bo.X}} {
 						g := globalOfLoad(pair[0])
-						if g == nil || g.Name() != "stringType" {
+						if g == nil {
 							continue
 						}
 						for _, o := range origins(pair[1]) {
-							if call, isC := o.(*ssa.Call); isC && call.Common().IsInvoke() && call.Common().Method.Name() == "Key" {
+							call, isC := o.(*ssa.Call)
+							if !isC || !call.Common().IsInvoke() {
+								continue
+							}
+							if call.Common().Method.Name() == "Key" && g.Name() == "stringType" {
 								ok = true
+							}
+							// the value type too is one particular type: a named type of the same kind
+							// may carry MarshalJSON / MarshalText (json.Number is a string kind)
+							if call.Common().Method.Name() == "Elem" && strings.HasSuffix(g.Name(), "Type") {
+								okVal = true
 							}
 						}
 					}
 				}
-				if !ok {
+				if !ok || !okVal {
 					bad = fmt.Sprintf("%s: %s", c.InstrPos(blk.Instrs[0]), special)
 				}
 			}
@@ -6267,9 +6277,9 @@ func smallWave23(c *core.Ctx, b *ob) {
 			case n == 0:
 				b.addP(props, core.Undecided, key, c.FuncPos(fn), "no map[string]V specialisation found in constructMapCodec")
 			case bad != "":
-				b.addP(props, core.Violation, key, bad, "a codec specialised to map[string]V is selected without the key type being string itself ("+bad+"): a named key type of string kind that implements encoding.TextUnmarshaler (or TextMarshaler) takes the fast path, which reads and writes the key as a plain string — encoding/json calls UnmarshalText, so the entries land under different keys")
+				b.addP(props, core.Violation, key, bad, "a codec specialised to map[string]V is selected without the key type being string itself and the value type being the one type the codec is written for ("+bad+"): a named type of string kind that implements encoding.TextUnmarshaler / TextMarshaler / json.Marshaler (json.Number among them) takes the fast path, which reads and writes it as a plain string — encoding/json calls the methods, so keys land elsewhere and values are written differently ({\"n\":\"7\"} for a Number)")
 			default:
-				b.addP(props, core.Discharged, key, c.FuncPos(fn), fmt.Sprintf("%d specialised map codecs, each under t.Key() == stringType", n))
+				b.addP(props, core.Discharged, key, c.FuncPos(fn), fmt.Sprintf("%d specialised map codecs, each under t.Key() == stringType and t.Elem() == <one type>", n))
 			}
 		}
 	}
@@ -6699,6 +6709,400 @@ func smallWave23(c *core.Ctx, b *ob) {
 				b.addP(props, core.Violation, key, bad, "decodeTime parses something other than the bytes of the input between the quotes ("+bad+"): encoding/json hands the raw text to Time.UnmarshalJSON, which does not interpret escape sequences, so a time written with \\u005a for Z is an error there and would be accepted here")
 			default:
 				b.addP(props, core.Discharged, key, c.FuncPos(fn), "the text parsed is a window b[i:j] of the input")
+			}
+		}
+	}
+}
+
+// smallWave25 — clauses added for the twenty-fifth and twenty-sixth rounds of seeded changes.
+func smallWave25(c *core.Ctx, b *ob) {
+	// (b) a template value is JSON: what a rewriter writes into the field is the decoded value,
+	// never the text of the template — a string literal stripped of its quotes still holds its escape
+	// sequences (\\n, \\u00e9, and \\u003c for every < that json.Marshal re-escaped on the way)
+	{
+		props := []string{"C19"}
+		key := "rewrite-template:values-are-decoded"
+		n, bad := 0, ""
+		for _, fn := range c.RepoFunctions() {
+			if fn.Blocks == nil || !strings.HasPrefix(shortName(fn), "proto.parseRewriteTemplate") {
+				continue
+			}
+			var jp *ssa.Parameter
+			for _, p := range fn.Params {
+				if strings.HasSuffix(p.Type().String(), "json.RawMessage") {
+					jp = p
+				}
+			}
+			if jp == nil {
+				continue
+			}
+			n++
+			for _, ci := range callsIn(fn) {
+				cc := ci.Common()
+				name := calleeName(cc)
+				if strings.Contains(name, "json.") || strings.Contains(name, "parseRewriteTemplate") || strings.Contains(name, "bytes.") {
+					continue // decoding, delegation to the parser of a component, comparisons
+				}
+				if _, isB := cc.Value.(*ssa.Builtin); isB {
+					continue
+				}
+				// the field builders: methods of FieldNumber and the Append* functions
+				g := staticCallee(cc)
+				if g == nil {
+					continue
+				}
+				isBuilder := strings.HasPrefix(g.Name(), "Append")
+				if recv := g.Signature.Recv(); recv != nil && strings.HasSuffix(recv.Type().String(), "proto.FieldNumber") {
+					isBuilder = true
+				}
+				if !isBuilder {
+					continue
+				}
+				for _, a := range cc.Args {
+					if !(isSliceType(a.Type()) || isStringType(a.Type())) {
+						continue
+					}
+					if dependsOn(a, func(x ssa.Value) bool {
+						sl, ok := x.(*ssa.Slice)
+						return ok && stripConv(sl.X) == ssa.Value(jp)
+					}) || stripConv(a) == ssa.Value(jp) {
+						bad = fmt.Sprintf("%s: %s hands %s the text of the template", c.InstrPos(ci), shortName(fn), calleeLabel(cc))
+					}
+				}
+			}
+		}
+		switch {
+		case n == 0:
+			b.addP(props, core.Undecided, key, "-", "no parseRewriteTemplate* function with a json.RawMessage parameter found")
+		case bad != "":
+			b.addP(props, core.Violation, key, bad, bad+" instead of the value decoded from it: a string template containing an escape sequence (or a map key containing <, > or &, which json.Marshal re-escapes) is written into the field with its backslashes")
+		default:
+			b.addP(props, core.Discharged, key, "-", fmt.Sprintf("%d template parsers: none passes (a window of) the raw template to a field builder", n))
+		}
+	}
+	// (c) a thrift decoder that steps through a pointer it was handed tests it for nil first: what
+	// the struct decoder allocated for a pointer member is reset to nil again when the enclosing
+	// struct is a union (v.Set(dec.zero) runs between the allocation and the member's decoder), and
+	// elements of lists and map values arrive as fresh nil pointers
+	{
+		props := []string{"C04", "C08"}
+		key := "thrift-decode:elem-of-parameter-is-nil-checked"
+		n, bad := 0, ""
+		for _, fn := range c.RepoFunctions() {
+			name := shortName(fn)
+			if fn.Blocks == nil || !strings.HasPrefix(name, "thrift.") || !strings.Contains(strings.ToLower(name), "decode") {
+				continue
+			}
+			for _, ci := range callsIn(fn) {
+				g := staticCallee(ci.Common())
+				if g == nil || g.Name() != "Elem" || g.Pkg == nil || g.Pkg.Pkg.Path() != "reflect" || len(ci.Common().Args) != 1 {
+					continue
+				}
+				recv := ci.Common().Args[0]
+				if !strings.HasSuffix(recv.Type().String(), "reflect.Value") {
+					continue
+				}
+				src := recv
+				if ld, ok := src.(*ssa.UnOp); ok && ld.Op == token.MUL {
+					if cell := cellOf(ld.X); cell != nil {
+						st := cellStores(cell)
+						if len(st) == 1 {
+							src = st[0]
+						}
+					}
+				}
+				if _, isP := src.(*ssa.Parameter); !isP {
+					continue
+				}
+				n++
+				checked := false
+				for _, ci2 := range callsIn(fn) {
+					g2 := staticCallee(ci2.Common())
+					if g2 == nil || g2.Name() != "IsNil" || len(ci2.Common().Args) != 1 {
+						continue
+					}
+					r2 := ci2.Common().Args[0]
+					same := r2 == recv
+					if ld, ok := r2.(*ssa.UnOp); ok && ld.Op == token.MUL {
+						if cell := cellOf(ld.X); cell != nil {
+							if st := cellStores(cell); len(st) == 1 && st[0] == src {
+								same = true
+							}
+						}
+					}
+					if same && instrDominates(ci2.(ssa.Instruction), ci.(ssa.Instruction)) {
+						checked = true
+					}
+				}
+				if !checked {
+					bad = c.InstrPos(ci) + " (" + name + ")"
+				}
+			}
+		}
+		switch {
+		case n == 0:
+			b.addP(props, core.Undecided, key, "-", "no thrift decoder dereferences its reflect.Value parameter")
+		case bad != "":
+			b.addP(props, core.Violation, key, bad, "a thrift decoder calls Elem() on the pointer it was handed at "+bad+" without testing IsNil first: the pointer is nil when the member belongs to a union (the struct decoder resets the union after allocating the member), and the zero reflect.Value that Elem returns makes the member's decoder panic")
+		default:
+			b.addP(props, core.Discharged, key, "-", fmt.Sprintf("%d Elem() call(s) on a decoder's own parameter, each after IsNil on the same value", n))
+		}
+	}
+	// (d) which tag names are honoured is encoding/json's decision: json.isValidTag is compared
+	// with encoding/json.isValidTag in GOROOT — the same set of runes in its membership strings, the
+	// same unicode predicates, the same rune constants in comparisons. A name the two classify
+	// differently (it's, prix€) is used as the key here and replaced by the Go field name there.
+	{
+		props := []string{"C01", "C02"}
+		key := "tag-name-charset:agrees-with-encoding/json"
+		sig := func(fn *ssa.Function) (string, bool) {
+			if fn == nil || fn.Blocks == nil {
+				return "", false
+			}
+			runes := map[rune]bool{}
+			preds := map[string]bool{}
+			cmps := map[int64]bool{}
+			for _, blk := range fn.Blocks {
+				for _, in := range blk.Instrs {
+					switch x := in.(type) {
+					case ssa.CallInstruction:
+						name := calleeName(x.Common())
+						if strings.HasPrefix(name, "unicode.") {
+							preds[name] = true
+						}
+						if strings.HasPrefix(name, "strings.") || strings.HasPrefix(name, "bytes.") {
+							preds[name] = true
+							for _, a := range x.Common().Args {
+								if k, ok := a.(*ssa.Const); ok && k.Value != nil && k.Value.Kind() == constant.String {
+									for _, r := range constant.StringVal(k.Value) {
+										runes[r] = true
+									}
+								}
+							}
+						}
+					case *ssa.BinOp:
+						if x.Op == token.EQL || x.Op == token.NEQ || x.Op == token.LSS || x.Op == token.GTR || x.Op == token.LEQ || x.Op == token.GEQ {
+							if bt, ok := x.X.Type().Underlying().(*types.Basic); ok && bt.Kind() == types.Int32 {
+								if k, ok := constInt(x.Y); ok {
+									cmps[k] = true
+								}
+							}
+						}
+					}
+				}
+			}
+			var rs []string
+			for r := range runes {
+				rs = append(rs, string(r))
+			}
+			sort.Strings(rs)
+			var ps []string
+			for p := range preds {
+				ps = append(ps, p)
+			}
+			sort.Strings(ps)
+			var ks []string
+			for k := range cmps {
+				ks = append(ks, fmt.Sprint(k))
+			}
+			sort.Strings(ks)
+			return fmt.Sprintf("runes=%q predicates=%v compared=%v", strings.Join(rs, ""), ps, ks), true
+		}
+		mine := c.Lookup("json.isValidTag")
+		var std *ssa.Function
+		if p := c.Dep("encoding/json"); p != nil {
+			if obj, _ := p.Types.Scope().Lookup("isValidTag").(*types.Func); obj != nil {
+				std = c.FuncOf(obj)
+			}
+		}
+		ms, ok1 := sig(mine)
+		ss, ok2 := sig(std)
+		switch {
+		case !ok1 || !ok2:
+			b.addP(props, core.Undecided, key, "-", "json.isValidTag or encoding/json.isValidTag (GOROOT) not found")
+		case ms != ss:
+			b.addP(props, core.Violation, key, c.FuncPos(mine), "json.isValidTag classifies runes with "+ms+" where encoding/json.isValidTag uses "+ss+": a tag name the two judge differently (an apostrophe, a currency sign, a dash) is the key in one output and the Go field name in the other")
+		default:
+			b.addP(props, core.Discharged, key, c.FuncPos(mine), "same membership runes, unicode predicates and compared constants as encoding/json.isValidTag: "+ms)
+		}
+	}
+	// (e) the integer decoders have a null arm (the literal null leaves the value alone), which is
+	// right for a value and for a `,string` field — encoding/json accepts "null" there — but not for
+	// the key of a map: encoding/json parses an integer key's text with strconv, so {"null":1} into
+	// map[int]int is an error. The decoder installed for integer-kind keys is therefore not the bare
+	// `,string` codec: it is wrapped in a key decoder that refuses a text starting with n.
+	{
+		props := []string{"C02"}
+		key := "map-integer-key:null-text-rejected"
+		fn := c.Lookup("json.constructMapCodec")
+		if fn == nil {
+			b.addP(props, core.Undecided, key, "-", "json.constructMapCodec not found")
+		} else {
+			arms, bad := 0, ""
+			for _, blk := range fn.Blocks {
+				var sc *ssa.Call
+				for _, in := range blk.Instrs {
+					if call, ok := in.(*ssa.Call); ok {
+						if g := staticCallee(call.Common()); g != nil && g.Name() == "constructStringCodec" {
+							sc = call
+						}
+					}
+				}
+				if sc == nil {
+					continue
+				}
+				arms++
+				guarded := false
+				for _, in := range blk.Instrs {
+					st, ok := in.(*ssa.Store)
+					if !ok {
+						continue
+					}
+					fa, ok := st.Addr.(*ssa.FieldAddr)
+					if !ok || fieldNameOf(fa) != "decode" {
+						continue
+					}
+					call, ok := st.Val.(*ssa.Call)
+					if !ok {
+						continue
+					}
+					g := staticCallee(call.Common())
+					if g == nil || g.Blocks == nil {
+						continue
+					}
+					for _, anon := range append([]*ssa.Function{g}, g.AnonFuncs...) {
+						for _, b2 := range anon.Blocks {
+							for _, in2 := range b2.Instrs {
+								bo, ok := in2.(*ssa.BinOp)
+								if !ok || (bo.Op != token.EQL && bo.Op != token.NEQ) {
+									continue
+								}
+								if k, isK := constInt(bo.Y); isK && k == 'n' {
+									guarded = true
+								}
+							}
+						}
+					}
+				}
+				if !guarded {
+					bad = c.InstrPos(sc)
+				}
+			}
+			switch {
+			case arms == 0:
+				b.addP(props, core.Undecided, key, c.FuncPos(fn), "constructMapCodec does not build integer key codecs with constructStringCodec")
+			case bad != "":
+				b.addP(props, core.Violation, key, bad, "the decoder of integer-kind map keys is the bare `,string` codec: its integer decoder treats the text null as the null literal and leaves the key at zero, so {\"null\":1} decodes into map[int]int as {0:1} where encoding/json (strconv on the key text) fails")
+			default:
+				b.addP(props, core.Discharged, key, c.FuncPos(fn), fmt.Sprintf("%d integer key arms, each wraps the `,string` decoder in a key decoder that tests for a leading n", arms))
+			}
+		}
+	}
+	// (f) the text a TextMarshaler returns is arbitrary: it reaches the output only through
+	// encodeString — a "printable ASCII without a backslash" shortcut that copies it between quotes
+	// forgets that the quote itself is printable
+	{
+		props := []string{"C14", "C01"}
+		key := "text-marshaler:text-is-escaped"
+		n, bad := 0, ""
+		for _, fn := range c.RepoFunctions() {
+			if fn.Blocks == nil || !strings.HasPrefix(shortName(fn), "json.") {
+				continue
+			}
+			var texts []ssa.Value
+			for _, ci := range callsIn(fn) {
+				cc := ci.Common()
+				if cc.IsInvoke() && cc.Method.Name() == "MarshalText" {
+					if v, ok := ci.(*ssa.Call); ok {
+						texts = append(texts, v)
+					}
+				}
+			}
+			if len(texts) == 0 {
+				continue
+			}
+			// only the encoder side writes the text out (the sort-key helper converts it)
+			if recv := fn.Signature.Recv(); recv == nil || namedKey(recv.Type()) != "json.encoder" {
+				continue
+			}
+			n++
+			for _, ci := range callsIn(fn) {
+				bi, isB := ci.Common().Value.(*ssa.Builtin)
+				if !isB || bi.Name() != "append" || len(ci.Common().Args) != 2 {
+					continue
+				}
+				for _, o := range origins(ci.Common().Args[1]) {
+					if ex, ok := o.(*ssa.Extract); ok {
+						for _, t := range texts {
+							if ex.Tuple == t && ex.Index == 0 {
+								bad = c.InstrPos(ci) + " (" + shortName(fn) + ")"
+							}
+						}
+					}
+				}
+			}
+		}
+		switch {
+		case n == 0:
+			b.addP(props, core.Undecided, key, "-", "no encoder method calls MarshalText")
+		case bad != "":
+			b.addP(props, core.Violation, key, bad, "the bytes returned by MarshalText are appended to the output as they are at "+bad+": whatever test selects that path, a text containing a quote (printable ASCII, no backslash) produces invalid JSON, and only under the flag settings that take the shortcut")
+		default:
+			b.addP(props, core.Discharged, key, "-", fmt.Sprintf("%d encoder method(s) call MarshalText; the text is never the spread argument of append", n))
+		}
+	}
+	// (a) proto's entry points describe the value to the codec with the same constant flags: Size,
+	// Marshal and MarshalTo all size and encode a top-level value (inline|toplevel) — the Message and
+	// custom codecs write a length prefix unless told they are at top level, so an entry point that
+	// drops the bit writes Size(v)+1 bytes that are not Marshal(v)
+	{
+		props := []string{"C16", "C03"}
+		key := "proto-entry-flags:agree"
+		type site struct {
+			fn  string
+			pos string
+			k   int64
+		}
+		var sites []site
+		for _, name := range []string{"proto.Size", "proto.Marshal", "proto.MarshalTo"} {
+			fn := c.Lookup(name)
+			if fn == nil {
+				continue
+			}
+			for _, ci := range callsIn(fn) {
+				cc := ci.Common()
+				if staticCallee(cc) != nil || cc.IsInvoke() {
+					continue
+				}
+				if _, isB := cc.Value.(*ssa.Builtin); isB {
+					continue
+				}
+				for _, a := range cc.Args {
+					if !strings.HasSuffix(a.Type().String(), "proto.flags") {
+						continue
+					}
+					k, isK := constInt(a)
+					if !isK {
+						k = -1
+					}
+					sites = append(sites, site{name, c.InstrPos(ci), k})
+				}
+			}
+		}
+		switch {
+		case len(sites) < 3:
+			b.addP(props, core.Undecided, key, "-", fmt.Sprintf("only %d codec calls with a flags argument found in Size/Marshal/MarshalTo", len(sites)))
+		default:
+			bad := ""
+			for _, s := range sites[1:] {
+				if s.k != sites[0].k || s.k < 0 {
+					bad = fmt.Sprintf("%s: %s passes flags %#x where %s passes %#x", s.pos, s.fn, s.k, sites[0].fn, sites[0].k)
+				}
+			}
+			if bad != "" {
+				b.addP(props, core.Violation, key, bad, bad+": the codecs of Message and custom types length-prefix their payload unless the toplevel bit says they are the outermost value, and the inline bit says how p is to be read — entry points that disagree produce different bytes (or a different size) for the same value, so MarshalTo into a buffer of Size(v) bytes fails or differs from Marshal")
+			} else {
+				b.addP(props, core.Discharged, key, "-", fmt.Sprintf("%d codec calls in Size, Marshal and MarshalTo, all with flags %#x", len(sites), sites[0].k))
 			}
 		}
 	}
